@@ -9,6 +9,8 @@ PROPS["C18"] = {
     "harnesses": [
         {"pkg": "api", "name": "VerifC18_Stall", "quick": {"d": 0}, "thorough": {"d": 0}, "native": False,
          "bounds": {"follower": "websocket client that never reads (socket write blocks for ever)", "lines written": "10 or 300 (the follower's queue holds 256)"}},
+        {"pkg": "api", "name": "VerifC18_NextClient", "quick": {"d": 1}, "thorough": {"d": 2}, "native": False,
+         "bounds": {"clients": "two websocket log requests in sequence over one log of 2 lines (window 2)", "first client": "gone when the server writes to it: the socket write fails with net.ErrClosed or another error; follow or not", "second client": "follow or not; one later line when it follows", "schedules": "one preemption (two thorough)"}},
         {"pkg": "api", "name": "VerifC18_Disconnect", "quick": {"d": 2}, "thorough": {"d": 3}, "native": False,
          "bounds": {"follower": "websocket client that reads 3 lines and disconnects at any scheduling point, or that stopped reading (300 lines, queue of 256 full) and then disconnects", "socket": "a blocked write fails once the peer is gone"}},
         {"pkg": "pclog", "name": "VerifC18_Range", "quick": {}, "thorough": {},
@@ -168,6 +170,8 @@ PROPS["C19"] = {
     "harnesses": [
         {"pkg": "api", "name": "VerifC19_Handlers", "quick": {}, "thorough": {}, "reach": ["end", "malformed"],
          "bounds": {"routes": "14 JSON routes (all of routes.go except logs, scale, project state - own harnesses - and the websocket)", "runner outcome": "ok / ok with empty result / error / error with partial result", "body": "well-formed / malformed", "response body": "compared with what the recording runner returned (name, state, info, list, ports, result map, error text)"}},
+        {"pkg": "api", "name": "VerifC19_LogStreamAfterAbort", "quick": {"d": 1}, "thorough": {"d": 2}, "native": False,
+         "bounds": {"clients": "two websocket log requests in sequence over one log of 2 lines (window 2)", "first client": "gone when the server writes to it: the socket write fails with net.ErrClosed or another error; follow or not", "second client": "follow or not; one later line when it follows", "schedules": "one preemption (two thorough)"}},
         {"pkg": "api", "name": "VerifC19_Query", "quick": {}, "thorough": {},
          "bounds": {"route": "GET /project/state", "withMemory": "absent / true / false / 1 / yes / empty / 2 / 'true '"}},
         {"pkg": "api", "name": "VerifC19_Numeric", "quick": {}, "thorough": {}, "reach": ["end", "nonnumeric"],
